@@ -2,6 +2,7 @@ mod alloc;
 mod app;
 mod cfgs;
 mod chooser;
+mod dgram;
 mod props;
 mod runner;
 mod scen;
